@@ -736,7 +736,7 @@ def time_keys_normalised(idx: Index, rep: Report, rule: str) -> None:
                 n_norm += 1
     rep.count("time_keyed_uses", n)
     rep.count("from_time_normalisations", n_norm)
-    rep.require_min(rule, "time_keyed_uses", 4)
+    rep.require_min(rule, "time_keyed_uses", 3)
 
 
 def c24(idx: Index, rep: Report, tier: str) -> None:
